@@ -5,7 +5,7 @@ from .. import common as C
 from .. import specrun as X
 
 LEVEL = "proof"
-N = {"quick": (30, 260), "thorough": (2000, 30000)}
+N = {"quick": (30, 260), "thorough": (300, 3000)}
 
 
 def run_cases(chk, binp, cases, pf_ok, pf):
@@ -81,11 +81,11 @@ def run(chk):
     import random
     from .. import specgen as G
     rng = random.Random(chk.seed + 77)
-    for _ in range(40 if chk.tier == "quick" else 3000):
+    for _ in range(40 if chk.tier == "quick" else 400):
         d, cyc = G.ancestry_doc(rng)
         cases.append({"doc": d, "origin": "allOf ancestry graph" + (" with a cycle" if cyc else "")})
     base = [c["doc"] for c in cases if c.get("origin") == "grammar"]
-    for _ in range(60 if chk.tier == "quick" else 3000):
+    for _ in range(60 if chk.tier == "quick" else 600):
         d, e = G.collide_names(rng.choice(base), rng)
         if e != "none":
             cases.append({"doc": d, "origin": "name collision", "edits": [e]})
